@@ -142,6 +142,7 @@ type e2e struct {
 	// between a "hold" and the next "serve" operation they wait in the list (deferServe).
 	held       bool
 	deferServe bool
+	spill      int // kept cursors pushed out of their slot by a later one (they stay in the cache): unique keys
 	mu         sync.Mutex
 	stuckCh    chan struct{}
 	stuckOnce  sync.Once
@@ -466,7 +467,8 @@ func (e *e2e) do(op EOp) (who string, acts []sessEv) {
 		if op.Keep && err == nil && res != nil && res.NextQueryRequest.ReqId != 0 && cursor.VC03Cached(srv.Provider, res.NextQueryRequest.ReqId) {
 			if old, ok := e.kept[op.Cur]; ok {
 				// the slot is taken: the old cursor stays in the cache under another slot
-				e.kept[len(e.kept)+1000] = old
+				e.spill++
+				e.kept[1000+e.spill] = old
 			}
 			first := req
 			first.ReqId = res.NextQueryRequest.ReqId
@@ -533,7 +535,11 @@ func (e *e2e) do(op EOp) (who string, acts []sessEv) {
 			busy = 1 // the request that is waiting for new data right now: its cursor is busy, not idle
 		}
 		if left > busy {
-			e.fail("e2e-cursor-stuck", fmt.Sprintf("%d cursors stay in the provider's cache after the sweep although only %d requests are under way", left, busy))
+			// one pass of the provider's sweep does not promise to drop every expired idle cursor (its walk
+			// over the ring can pass one by when a busy cursor stands in the ring): such a cursor is still open
+			// and still a legitimate holder.  C14 asks that the counts are what the OPEN cursors explain; that
+			// the cache runs empty is demanded at the end of the session only (repeated sweeps, polled).
+			e.counts["sweep-left-an-idle-cursor"]++
 		}
 		var slots []int
 		for s := range e.kept {
@@ -543,6 +549,9 @@ func (e *e2e) do(op EOp) (who string, acts []sessEv) {
 		}
 		sort.Ints(slots)
 		for _, s := range slots {
+			if cursor.VC03Cached(srv.Provider, e.kept[s].req.ReqId) {
+				continue // not swept: the cursor is open, it keeps its partitions
+			}
 			acts = append(acts, sessEv{actor: e.kept[s].actor})
 			delete(e.kept, s)
 		}
@@ -1209,6 +1218,11 @@ func e2eCorpusBase() [][]EOp {
 		{{K: "write", Tag: 0, N: 2, Alt: true}, {K: "write", Tag: 0, N: 2}, {K: "query", M: []int{0}, N: 5, Fail: "badpos"}, {K: "query", M: []int{0}, N: 5, Fail: "badpos"},
 			{K: "query", M: []int{0}, N: 1, Keep: true, Cur: 0}, {K: "query", M: []int{0}, N: 1, Keep: true, Cur: 0}, {K: "evict"}, {K: "evict"},
 			{K: "trunc", M: []int{0}, Mode: 2}, {K: "trunc", M: []int{0}, Mode: 2}, {K: "describe", Tag: 0}, {K: "write", Tag: 0, N: 1, Fail: "first"}, {K: "trunc", M: []int{0}}, {K: "trunc", M: []int{0}}},
+		// two false alarms of the harness, minimised (docs/C14.md "false alarm corrected"): one pass of the
+		// provider's sweep during a waiting request leaves an expired idle cursor in the cache (it is still
+		// open: its partitions stay counted); kept cursors pushed out of their slot more than once
+		{{K: "write", Tag: 1, N: 1}, {K: "write", N: 5}, {K: "query", M: []int{1, 2}, N: 1, Keep: true}, {K: "query", M: []int{0}, N: 1, Keep: true, Flt: 2}, {K: "query", M: []int{1, 0}, N: 5, Keep: true, Cur: 1, Pos: "tail", Flt: 1}, {K: "query", M: []int{1, 0}, N: 5, Keep: true, Cur: 1, Pos: "tail", Flt: 1}, {K: "query", M: []int{0, 2, 1}, N: 1, Cur: 1, During: []EOp{{K: "show", M: []int{2, 1}}, {K: "show", M: []int{0, 2}}, {K: "evict"}, {K: "write", N: 2}}, Wait: true}},
+		{{K: "write", Tag: 1, N: 1}, {K: "query", M: []int{0, 2, 1}, N: 1000, Cur: 1, Pos: "tail", Flt: 1, During: []EOp{{K: "query", M: []int{2}, N: 5, Keep: true, Flt: 4}, {K: "query", M: []int{0, 2, 1}, N: 5, Cur: 2}, {K: "evict"}, {K: "write", N: 2}}, Wait: true}, {K: "query", M: []int{1, 0}, N: 1, Keep: true, Cur: 2, Flt: 1}, {K: "query", M: []int{2, 1}, N: 1, Keep: true, Cur: 1}, {K: "write", Tag: 2, N: 5, During: []EOp{{K: "cont", Cur: 2, Pos: "bad"}, {K: "describe"}, {K: "describe", Tag: 2}}}, {K: "query", M: []int{1, 2, 0}, N: 1000, Keep: true, Cur: 1, Pos: "head"}},
 		// a kept cursor is re-positioned (stale position, then a bad one)
 		{{K: "write", Tag: 0, N: 40}, {K: "query", M: []int{0}, N: 1, Keep: true, Cur: 1}, {K: "cont", Cur: 1, Pos: "next"}, {K: "cont", Cur: 1, Pos: "stale"}, {K: "cont", Cur: 1, Pos: "bad"}, {K: "show", M: []int{0}}},
 	}
